@@ -109,6 +109,7 @@ BigFails(R) ==
 
 Negative(R) == IF R.cls = "rational" THEN R.a[1] < 0 ELSE R.a < 0
 NumFails(R) ==
+  IF R.oor THEN {"C12:result_out_of_range", "C13:result_out_of_range"} ELSE
   IF R.big THEN BigFails(R) ELSE
   IF R.op = "str"
   THEN (IF ~R.unchanged THEN {"C14:value_changed"} ELSE {}) \cup
